@@ -389,7 +389,11 @@ fn c01(c: &mut Checker) {
     }
     // the real serde_json source, when the document is representable there
     if c.scn.doc.json_representable() {
-        for script in [Script::AllC, Script::AllB] {
+        let mut scripts = vec![Script::AllC, Script::AllB, c.scn.script.clone()];
+        for k in c.stop_positions(base.decisions).into_iter().take(4) {
+            scripts.push(Script::CkB(k + 1));
+        }
+        for script in scripts {
             let mut cfg = c.cfg(script);
             cfg.source = Source::Json;
             let r = c.exec(&cfg, &has_report);
